@@ -363,6 +363,14 @@ class GenericSpatialTransform(SequentialTransform):
             if flip_grid_coords:
                 scales = scales.flip(-1)
             data["scaling"] = scales
+        if "shearing" in self._transforms:
+            if flip_grid_coords:
+                raise NotImplementedError(
+                    f"{type(self).__name__} 'flip_grid_coords' is not supported for a shearing component"
+                )
+            angles = pred["shearing"]
+            assert isinstance(angles, Tensor)
+            data["shearing"] = angles
         if "quaternion" in self._transforms:
             q = pred["quaternion"]
             assert isinstance(q, Tensor)
